@@ -97,6 +97,8 @@ def eval_system(case):
     hetero = any(mol["atoms"][i]["el"] != "C" or mol["atoms"][i]["charge"] for i in aadj)
     n_rings = sum(len(v) for v in aadj.values()) // 2 - n_ar + 1
     nontrivial = (n_rings >= 2 or hetero or n_ar % 2 == 1) and (nonbip or n_ar >= 20)
+    if any(o == 1 and mol["atoms"][a]["arom"] and mol["atoms"][b]["arom"] for a, b, o in mol["bonds"]):
+        classes.append("single_bond_between_aromatic_atoms")
     if nonbip:
         classes.append("needs_pi_graph_non_bipartite")
     if n_ar >= 20:
@@ -286,6 +288,21 @@ def gen_system_case(ch, extended=False, allow_cage=True):
             kinds[ch.pick(twos)] = ch.pick(GA.PI_FREE_2)
             m = GA.build(adj, kinds)
             mj = mol_json(m)
+    if ch.bool(25) and name == "fused":
+        # declare 1-2 bonds *inside* the ring system single (written '-', as chain bond or on one/both sides of a
+        # ring closure): the atoms stay aromatic, the bond must stay single and takes no part in the pi system
+        # only bonds whose two atoms keep at least two aromatic bonds each (fusion bonds, as the 5-5 bond of pentalene
+        # or the 5-7 bond of azulene): an "aromatic" atom left with fewer aromatic bonds is not part of any aromatic
+        # ring and its meaning is undefined
+        def arom_degree(x):
+            return sum(1 for y in m.adj[x] if m.order[frozenset((x, y))] == 1.5)
+        for _ in range(ch.int(1, 2)):
+            keys = sorted(tuple(sorted(k)) for k, o in m.order.items()
+                          if o == 1.5 and all(arom_degree(x) >= 3 for x in k))
+            if keys:
+                a, b = ch.pick(keys)
+                m.order[frozenset((a, b))] = 1
+        mj = mol_json(m)
     if len(m.atoms) > 70 and name not in ("C60",):
         return None
     sps = spell(m, ch, ch.int(3, 6) if len(m.atoms) < 40 else 3)
